@@ -53,7 +53,18 @@ func checkChaos(c chaosCase) (events int, v *verdict) {
 	px.WaitTableLoaded(1, 10*time.Second)
 	tags := []string{"{a}", "{b}", "{c}", "{d}", "{e}", "{f}"}
 	stop := make(chan struct{})
-	var evCount int32
+	var evCount, apiHung int32
+	// a host update that never returns must not hang the harness: the clients' verdicts (or this flag) report it
+	within := func(f func()) bool {
+		done := make(chan struct{})
+		go func() { f(); close(done) }()
+		select {
+		case <-done:
+			return true
+		case <-time.After(2 * hangDeadline):
+			return false
+		}
+	}
 	var kwg sync.WaitGroup
 	kwg.Add(1)
 	go func() {
@@ -87,11 +98,19 @@ func checkChaos(c chaosCase) (events int, v *verdict) {
 				for _, a := range w.Addrs(ms) {
 					hs = append(hs, host.New(a))
 				}
-				px.P.OnSvcAllHostReplace(hs)
+				if !within(func() { px.P.OnSvcAllHostReplace(hs) }) {
+					atomic.StoreInt32(&apiHung, 1)
+					return
+				}
 			case "readd":
-				px.P.OnSvcHostRemove([]*host.Host{host.New(n.Addr)})
-				time.Sleep(time.Duration(int(r>>24)%4) * time.Millisecond)
-				px.P.OnSvcHostAdd([]*host.Host{host.New(n.Addr)})
+				if !within(func() {
+					px.P.OnSvcHostRemove([]*host.Host{host.New(n.Addr)})
+					time.Sleep(time.Duration(int(r>>24)%4) * time.Millisecond)
+					px.P.OnSvcHostAdd([]*host.Host{host.New(n.Addr)})
+				}) {
+					atomic.StoreInt32(&apiHung, 1)
+					return
+				}
 			case "migrate":
 				if len(ms) >= 2 {
 					slot := ref.Slot([]byte(tags[int(r>>28)%len(tags)]))
@@ -170,6 +189,9 @@ func checkChaos(c chaosCase) (events int, v *verdict) {
 		if r != nil {
 			return int(evCount), r
 		}
+	}
+	if atomic.LoadInt32(&apiHung) != 0 {
+		return int(evCount), &verdict{"host-update-never-returns", fmt.Sprintf("OnSvcAllHostReplace / OnSvcHostRemove+Add did not return within %v while requests were in flight\n%s", 2*hangDeadline, vh.Stacks())}
 	}
 	return int(evCount), nil
 }
